@@ -297,6 +297,9 @@ fn record_violation(env: &Env, report: &mut Report, sub: &str, mut fail: Fail, c
             Some(p)
         }
     };
+    if report.violations.iter().any(|v| v.sub == sub && v.key == fail.key && v.case == case) {
+        return; // two workers shrank to the same case
+    }
     report.violations.push(Violation { sub: sub.to_string(), key: fail.key, msg: fail.msg, case, replay_path });
 }
 
@@ -598,6 +601,10 @@ pub fn finish(env: &Env, report: Report, meta: &Meta) -> i32 {
         println!("KNOWN-FINDING: property={} key={} {} ({} generated cases excluded)", env.prop, k, t, n);
     }
     for v in &report.violations {
+        if v.key.starts_with("harness:") {
+            eprintln!("HARNESS-ERROR [{}] {} :: {} (case: {})", v.sub, v.key, truncate(&v.msg, 600), v.replay_path.as_ref().map(|p| p.display().to_string()).unwrap_or_default());
+            continue;
+        }
         println!("  [{}] {} :: {}", v.sub, v.key, truncate(&v.msg, 600));
         println!(
             "VIOLATION property={} replay={}",
@@ -616,6 +623,10 @@ pub fn finish(env: &Env, report: Report, meta: &Meta) -> i32 {
         report.violations.len(),
         wall
     );
+    if report.violations.iter().any(|v| v.key.starts_with("harness:")) {
+        eprintln!("harness error (oracle or replay problem), not a verdict on the property");
+        return 2;
+    }
     if report.violations.is_empty() {
         0
     } else {
